@@ -63,7 +63,7 @@ def build(u):
     u.emit(R, 'impl BinaryOp')
     u.emit(R, 'impl UnaryOp')
     u.emit(R, 'impl ComparisonOp')
-    R14 = RR.r14_iter_any('OperandValueType', 'b == entry_matches(*valid_type, value_type)', label='C07.res.table_entry_match')
+    R14 = RR.r14_iter_any('OperandValueType', 'b == entry_matches(*valid_type, value_type)', label='C07.res.table_entry_match', written_for='valid_type')
     u.emit(R, 'fn analyze_operand_type', rules=[R14, RR.r_assert_message, RR.r_err_question])
     RS = [RR.r_assert_message, RR.r_err_question]
     u.emit(R, 'fn get_type_of_operand', rules=RS)
